@@ -56,7 +56,8 @@ package unixsocket
 //@ func pkg/unixsocket.(*Socket).RecvMsg props C19 C12
 //@   arith int
 //@   requires s != nil && s.UnixConn != nil && len(s.recvBuff) == 4096
-//@   assigns all(b), all(s.recvBuff), S.nrights, S.right, FD.closed
+//@   assigns all(b), all(s.recvBuff), S.nrights, S.right, S.flags, FD.closed
+//@   ensures @C19 result.2 == nil ==> S.flags & 40 == 0
 //@   ensures @C19 result.2 != nil ==> len(result.1.Fds) == 0 && all_arrived_closed()
 //@   ensures @C19 result.2 == nil ==> len(result.1.Fds) == S.nrights && forall k int :: 0 <= k && k < S.nrights ==> result.1.Fds[k] == S.right[k] && !FD.closed[S.right[k]]
 //@   ensures 0 <= result.0 && result.0 <= len(b)
@@ -65,10 +66,10 @@ package unixsocket
 // [credentials m.Cred (iff given)], freshly assembled for this call.
 //@ func pkg/unixsocket.(*Socket).SendMsg props C19
 //@   arith int
-//@   requires s != nil && s.UnixConn != nil && B.n == 0
+//@   requires s != nil && s.UnixConn != nil
 //@   assigns B.n, B.item
-//@   callsite WriteMsgUnix: assert @C19 B.n == ite(len(m.Fds) > 0, 1, 0) + ite(m.Cred != nil, 1, 0)
-//@   callsite WriteMsgUnix: assert @C19 len(m.Fds) > 0 ==> B.item[0] == enc_rights(m.Fds)
+//@   callsite WriteMsgUnix: assert @C19 B.n == old(B.n) + ite(len(m.Fds) > 0, 1, 0) + ite(m.Cred != nil, 1, 0)
+//@   callsite WriteMsgUnix: assert @C19 len(m.Fds) > 0 ==> B.item[old(B.n)] == enc_rights(m.Fds)
 //@   callsite WriteMsgUnix: assert @C19 m.Cred != nil ==> B.item[B.n - 1] == enc_cred(m.Cred)
 //@   callsite WriteMsgUnix: assert @C19 b == old(b)
 
